@@ -588,12 +588,16 @@ func randMutator(r *hx.Rand, f ingest.Feature) string {
 			return fmt.Sprintf("setpoly %d P%d", i, 1+r.Intn(3))
 		}
 	case *ingest.RelationFeature:
-		if r.Chance(2, 3) {
+		if len(f.Members) > 0 && r.Chance(2, 3) {
 			return fmt.Sprintf("setmember %d %s", index(r, len(f.Members)), memberText(r))
 		}
 		return "appmember " + memberText(r)
 	case *ingest.CollectionFeature:
-		switch r.Intn(6) {
+		x := r.Intn(6)
+		if len(f.Keys) == 0 && x <= 2 && !r.Chance(1, 10) {
+			x = 3
+		}
+		switch x {
 		case 0, 1:
 			return fmt.Sprintf("setkey %d k%d", index(r, len(f.Keys)), r.Intn(30))
 		case 2:
@@ -742,7 +746,7 @@ func main() {
 		Name: "c38",
 		Rule: "random interleavings (8-29 ops) of new/Clone/MergeFrom/every feature mutator/world.AddFeature/world.AddTag/RemoveTag over generic, area, relation and collection features and three kinds of mutable world (basic, overlay, overlay over a base holding the referenced paths); ids from small ranges so that adds replace earlier entries; 1 in 40 indices out of range (must panic and change nothing); non-trivial = at least one mutation of a value that had been added to the world, cloned, or is a clone (or a world-side tag edit); distinct = by hash of the op text",
 		Quick:    2500,
-		Thorough: 120000,
+		Thorough: 80000,
 		Corpus:   corpus,
 		Case:     randomCase,
 	})
